@@ -1,6 +1,6 @@
 (* C28 — Inscription properties round-trip and decoding is bounded.
    Only statements, closed by [exact], with Print Assumptions. *)
-From OrdV Require Import Base.Prelude Generated Codec.EnvScript Codec.Envelope Codec.Cbor Proofs.Cbor_proofs
+From OrdV Require Import Base.Prelude Generated Codec.EnvScript Codec.Envelope Codec.Cbor Proofs.Envelope_proofs Proofs.Cbor_proofs
   Proofs.Cbor_rt_proofs Proofs.Cbor_rt2_proofs Proofs.Cbor_rt3_proofs.
 
 (* Bounded decompression, for ANY decompressor: whatever stream of chunks the brotli reader
@@ -20,6 +20,29 @@ Theorem C28_loop_invariant : forall max chunks err acc v,
   lenN acc <= max -> decompress_loop max acc chunks err = Some v ->
   lenN v <= max /\ exists k, v = acc ++ concat (firstn k chunks) /\ Forall (fun c => c <> []) (firstn k chunks).
 Proof. intros. eapply decompress_loop_spec; eassumption. Qed.
+
+(* The decision (refuse / accept with which length) depends on the chunk lengths only: the
+   length-level loop used by the wire entry for multi-megabyte streams is the length of the
+   byte-level loop above, so the bound theorems speak about it as well. *)
+Theorem C28_length_view : forall value enc chunks err,
+  properties_cbor_len (lenN value) enc (map (@lenN N) chunks) err = option_map (@lenN N) (properties_cbor value enc chunks err).
+Proof. exact properties_cbor_len_spec. Qed.
+
+(* Encoder and decoder agree on the limits (this is the statement that FAILED on the unchanged
+   tree - compress_properties compared the rounded-down quotient len / clen with 30 - and holds
+   after the `fix:` commit recorded in known_findings.txt): if compress_properties accepts a cbor
+   of |cbor| bytes compressed to |value| bytes, then for every decompressor that yields exactly
+   the cbor, in any non-empty chunks, and then ends, properties_cbor returns the cbor.  That brotli
+   does yield the cbor back is asserted by the code at run time, not proved. *)
+Theorem C28_accepted_compression_decodes : forall cbor value chunks,
+  compress_accepts (lenN cbor) (lenN value) = true ->
+  Forall (fun c => c <> []) chunks -> concat chunks = cbor ->
+  properties_cbor value (Some BROTLI) chunks false = Some cbor.
+Proof.
+  intros cbor value chunks Ha Hc <-. unfold properties_cbor. rewrite Envelope_proofs.bytes_eqb_refl.
+  apply compress_accepts_bound in Ha.
+  rewrite decompress_loop_complete; [reflexivity|exact Hc|unfold lenN at 1; cbn [length]; lia].
+Qed.
 
 (* encode_properties returns a shortest candidate *)
 Theorem C28_choice_minimal : forall lens i, choose lens = Some i ->
@@ -82,6 +105,8 @@ Qed.
 Print Assumptions C28_bounded_decompress.
 Print Assumptions C28_loop_invariant.
 Print Assumptions C28_choice_minimal.
+Print Assumptions C28_length_view.
+Print Assumptions C28_accepted_compression_decodes.
 Print Assumptions C28_inline_roundtrip.
 Print Assumptions C28_packed_roundtrip.
 Print Assumptions C28_encoders_total.
